@@ -122,8 +122,12 @@ def render_args(prog, callee, args, multiline=False, here_mod=None):
                 kw_mode = True
         elif a[0] == "icall":
             text = call_expr(prog, here_mod, a[1], a[2]) + "()"
+            if len(a) > 3 and a[3] == "kw":
+                kw_mode = True
         elif a[0] == "iload":
             text = f"dds.load({a[1]!r})"
+            if len(a) > 2 and a[2] == "kw":
+                kw_mode = True
         else:
             raise ValueError(a)
         out.append(f"{pname}={text}" if kw_mode else text)
